@@ -143,6 +143,10 @@ def gen_blocks(rng, targets, model):
                 if rng.random() < 0.6:
                     b[g] = 'foo_%s_%d' % (a.replace('-', '_'), bid)
                     anns.append('(%s %s)' % (a, b[g]))
+        if kind in ('vfunc', 'callback') and bid % 3 == 0:
+            # async links stated on a virtual method / callback type, with names no pairing heuristic could guess
+            b['glib:finish-func'] = 'done_%d' % bid
+            anns.append('(finish-func done_%d)' % bid)
         if kind == 'function' and isinstance(extra, tuple) and extra[0] == 'async':
             # explicit counterparts that differ from what the name heuristic would guess (the sibling "fetch" exists)
             if rng.random() < 0.7:
@@ -363,6 +367,11 @@ def judge(model, blocks, gir):
         for attr in ('value', 'default-value', 'setter', 'getter', 'emitter', 'copy-function', 'free-function', 'glib:ref-func', 'glib:unref-func',
                      'glib:set-value-func', 'glib:get-value-func', 'glib:finish-func', 'glib:sync-func', 'glib:async-func'):
             if attr in b:
+                if n.tag == 'virtual-method' and n.get('invoker'):
+                    inv = [m for m in n.parent.findall('method') if m.get('name') == n.get('invoker')]
+                    ib2 = by_block_ident.get(inv[0].get('c:identifier')) if inv else None
+                    if ib2 is not None and attr in ib2:
+                        continue        # both blocks state it for the same slot
                 if attr in ('setter', 'getter', 'emitter'):
                     # the role is only selected where the signature permits it
                     owner = n.parent
